@@ -61,6 +61,22 @@ def ops : List (String × Op) := [
         let s ← pNat; let e ← pNat; let c ← pBool; let p ← pNat; let pc ← pOptBlks
         pure ({ start := s, stop := e, coding := c, primary := p, primaryCds := pc } : GeneAns))
       pure (verdictFlag cs a (okGene cs a))),
+  -- chunk-built twins (`<lo> <hi> <strand>` of the chunk first): the property's aggregates are stated over the
+  -- chromosome-level children, whatever window of the chromosome the object was built on
+  ("genek", do
+      let _ ← pNat; let _ ← pNat; let _ ← pStrand
+      let cs ← pChildren; pArrow
+      let a ← pAns (do
+        let s ← pNat; let e ← pNat; let c ← pBool; let p ← pNat; let pc ← pOptBlks
+        pure ({ start := s, stop := e, coding := c, primary := p, primaryCds := pc } : GeneAns))
+      pure (verdictFlag cs a (okGene cs a))),
+  ("fcollk", do
+      let _ ← pNat; let _ ← pNat; let _ ← pStrand
+      let cs ← pChildren; pArrow
+      let a ← pAns (do
+        let s ← pNat; let e ← pNat; let p ← pNat; let ts ← pList pStr
+        pure ({ start := s, stop := e, primary := p, types := ts } : FcollAns))
+      pure (verdictFlag cs a (okFcoll cs a))),
   ("gmt", do
       let _ ← pBool; let cs ← pChildren; pArrow
       let a ← pAns pMergedAns
